@@ -970,6 +970,17 @@ def run_shard(spec, rec):
 
     rng = random.Random(spec["seed"])
     nit = spec["nit"]
+    # 'raw' is not among the formats the C09 statement lists (default, compact, pretty, HTML, LaTeX,
+    # siunitx): its structural clause is observed and counted, not alarmed on (main-agent review).
+    _viol = rec.violation
+
+    def _violation(mech, wit, **f):
+        if f.get("fmt") == "raw" and mech in ("structure", "roundtrip-unit", "roundtrip-quantity"):
+            rec.count("raw_format_not_exact_observed")
+            rec.observe("raw_format_observations", f.get("reason") or f.get("cause") or mech)
+            return
+        _viol(mech, wit, **f)
+    rec.violation = _violation
     m = RM.default_model(pintload.REPO)
     ureg = pintload.registry(non_int_type=NIT[nit])
     names = Names(m)
